@@ -151,7 +151,7 @@ func runHeaderCase(c *core.Case) *core.Result {
 	stateOf := func(h Header) *State { return w.States[h.Txid] }
 	hNew, slotNew := NewestHeader(b.img, ps)
 	if !hNew.Valid || hNew.Txid != b.txid {
-		res.Violate("C16", "harness", "harness", "base image does not hold the committed header", nil)
+		res.Violate("C16", "header-format", "header-format", fmt.Sprintf("the header written by commit txid=%d is not valid according to the documented format (magic, version, FNV-32a checksum over the first 80 bytes): harness decoder sees valid=%v txid=%d", b.txid, hNew.Valid, hNew.Txid), map[string]interface{}{"config": cfg})
 		return res
 	}
 	if w.States[b.txid-1] == nil {
